@@ -103,6 +103,7 @@ func C04(r *eng.Run) {
 	p.ZeroReads = r.T.Chance(sim.LFault, 1, 8)
 	cfg.ZeroBuf = (cfg.App == AppReader || cfg.App == AppNextReader) && r.T.Chance(sim.LFault, 1, 8)
 	cfg.SkipEmpty = cfg.App == AppReader && r.T.Chance(sim.LCfg, 1, 4) // empty unfragmented messages are not read at all
+	cfg.SkipCheck = cfg.App == AppReader && r.T.Chance(sim.LCfg, 1, 6) // a valid stream reads the same without the header checks
 	if (cfg.App == AppReader || cfg.App == AppNextReader) && cfg.Bufio == 0 && !cfg.NoDiscard && r.T.Chance(sim.LFault, 1, 6) {
 		// One temporary read error inside the payload of a data frame; the
 		// application reads every unit to its end and retries.
